@@ -42,7 +42,7 @@ Definition step (s : st) (r : list Z) : option st :=
     let hf := fld r 10 in
     (* a supported-version Initial in a datagram shorter than 1200 bytes creates no state and
        provokes no reply *)
-    let initial := Z.testbit hf 1 in
+    let initial := Z.testbit hf 1 && Z.testbit hf 7 in
     if (e =? 1) && initial && (size <? 1200) && ((out =? 2) || (out =? 3)) then None
     (* a stateless response is strictly smaller than what provoked it *)
     (* provoked by a short-header datagram: a stateless reset *)
